@@ -41,7 +41,8 @@ impl From<&TcpHeader> for Vec<u8> {
 pub struct Tcp {
     header: RefCell<TcpHeader>,             // Header of the TCP packet
     pub rawdata: RefCell<Rc<Vec<u8>>>,      // Raw data of the entire packet
-    pub offset: usize,                      // Offset of the TCP header
+    pub offset: usize,                      // Offset of the bytes after the fixed TCP header
+    pub payload_offset: usize,              // Offset of the payload (after the options)
     pub inner: RefCell<Option<Rc<Object>>>, // Inner packet
 }
 
@@ -90,6 +91,12 @@ impl Tcp {
             rawdata[off + 11],
         ]);
         let data_off = rawdata[off + 12] >> 4;
+        // The payload starts where the data offset says; a data offset below 5
+        // is malformed and the payload is then taken to start after the fixed part
+        let header_len = (data_off as usize * 4).max(TCP_HEADER_SIZE);
+        if rawdata.len() < off + header_len {
+            return Err(PacketError::InvalidLength(rawdata.len()));
+        }
         let reserved = rawdata[off + 12] & 0x0F;
         let flags = rawdata[off + 13] as u16;
         let window_size = u16::from_be_bytes([rawdata[off + 14], rawdata[off + 15]]);
@@ -113,6 +120,7 @@ impl Tcp {
             header,
             rawdata: RefCell::new(rawdata),
             offset: off + TCP_HEADER_SIZE,
+            payload_offset: off + header_len,
             inner: RefCell::new(None),
         })
     }
